@@ -59,6 +59,7 @@ class Check:
         os.makedirs(self.replay_dir, exist_ok=True)
         self.nreplay = 0
         self.replay_repeat = None
+        self.max_replays_per_obligation = 3
         self.died_confirms = True   # a replay that kills the process confirms a violation (not for checks that EXPECT a loud exit)
         self.scratch = tempfile.mkdtemp(prefix='verif-%s-' % pid)
         self.rtmp = os.path.join(self.scratch, 'tmp')   # TMPDIR of native replays (removed with the scratch directory)
@@ -163,7 +164,7 @@ class Check:
         for v in viol:
             key = (v.get('known_id'), v['name'])
             seen_keys[key] = seen_keys.get(key, 0) + 1
-            if seen_keys[key] > (1 if v.get('known_id') else 3):
+            if seen_keys[key] > (1 if v.get('known_id') else self.max_replays_per_obligation):
                 if not v.get('known_id'):
                     self.extra['further_violation_models_not_replayed'] = self.extra.get('further_violation_models_not_replayed', 0) + 1
                 continue
@@ -173,7 +174,7 @@ class Check:
             confirmed = outcome.startswith('violated') or ((outcome.startswith('died') or outcome == 'timeout') and self.died_confirms)
             if not confirmed:
                 self.unconfirmed.append(v)
-                self.inconclusive.append({'why': 'solver model did not reproduce natively (%s): %s %s' % (outcome, v['name'], path), 'harness': v['harness']})
+                self.inconclusive.append({'why': 'solver model did not reproduce natively (%s): %s %s' % (outcome, v['name'], path), 'harness': v['harness'], '_key': key})
                 continue
             kid = v.get('known_id') or (is_known(v) if is_known else None)
             if kid:
@@ -181,6 +182,9 @@ class Check:
                     self.known_seen.append({'id': kid, 'replay': path, 'outcome': outcome[:200]})
                 continue
             self.violations.append(v)
+            # a reproduced counterexample settles the obligation: earlier models of the same obligation that did not
+            # reproduce (summarised callees over-approximate) are no longer open questions
+            self.inconclusive = [i for i in self.inconclusive if i.get('_key') != key]
 
     # ------------------------------------------------------------ known-finding witnesses
     def check_known_witness(self, finding, reproduced, detail=''):
